@@ -537,6 +537,17 @@ fn pedersen_n<G: Grp, const N: usize>(rng: &mut StdRng, thorough: bool, out: &mu
                 for k in 0..N { acc2 += gs[k] * m2[k]; }
                 combo.push(json!({"kind": "coord+1,bf-1", "idx": i, "verdict": com.verify_opening(&params, bf_of(&r2), &Message::<N>::new(m2)), "recomputed_eq": acc2 == acc}));
             }
+            {
+                // the opening of -C presented for C (same x-coordinate): opens only if C is its own negative (the identity)
+                let mut m2 = mv;
+                for k in 0..N { m2[k] = -mv[k]; }
+                let r2 = -r;
+                if m2 != mv || r2 != r {
+                    let mut acc2 = h * r2;
+                    for k in 0..N { acc2 += gs[k] * m2[k]; }
+                    combo.push(json!({"kind": "negated opening", "idx": 0, "verdict": com.verify_opening(&params, bf_of(&r2), &Message::<N>::new(m2)), "recomputed_eq": acc2 == acc}));
+                }
+            }
             let mut distinct = true;
             for a in 0..N { if gs[a] == h { distinct = false; } for b2 in 0..a { if gs[a] == gs[b2] { distinct = false; } } }
             // homomorphism with a second opening
@@ -637,12 +648,13 @@ fn perturbations(tree: &Tree, rng: &mut StdRng, thorough: bool) -> Vec<ProofCase
                 if let Some(t) = torsion_point_g1(rng) {
                     alts.push(("+small-order point".into(), G1Affine::from(p + t).to_compressed().to_vec()));
                 }
-                if thorough { alts.push(("negated".into(), G1Affine::from(-p).to_compressed().to_vec())); }
+                alts.push(("negated".into(), G1Affine::from(-p).to_compressed().to_vec()));
             }
             _ => {
                 let p = G2Projective::from(indep::g2(orig).unwrap());
                 alts.push(("+generator".into(), G2Affine::from(p + G2Projective::generator()).to_compressed().to_vec()));
                 alts.push(("identity".into(), G2Affine::identity().to_compressed().to_vec()));
+                alts.push(("negated".into(), G2Affine::from(-p).to_compressed().to_vec()));
             }
         }
         for (name, nb) in alts {
@@ -650,6 +662,19 @@ fn perturbations(tree: &Tree, rng: &mut StdRng, thorough: bool) -> Vec<ProofCase
             b[l.off..l.off + l.len].copy_from_slice(&nb);
             v.push(ProofCase { case: format!("perturb:{}:{}", l.path, name), bytes: b, wrong_challenge: false, other_params: false });
         }
+    }
+    // every response scalar negated at once (same x-coordinate on both sides of the Schnorr equation)
+    {
+        let mut b = tree.bytes.clone();
+        let mut any = false;
+        for l in tree.atoms() {
+            if l.len == 32 && l.path.contains("response") {
+                let z = indep::sc(&tree.bytes[l.off..l.off + 32]).unwrap();
+                b[l.off..l.off + 32].copy_from_slice(&(-z).to_bytes());
+                any = true;
+            }
+        }
+        if any { v.push(ProofCase { case: "perturb:all responses negated".into(), bytes: b, wrong_challenge: false, other_params: false }); }
     }
     // swap commitment and scalar commitment
     let c = tree.leaves.iter().find(|l| l.path.ends_with("commitment") && !l.path.ends_with("scalar_commitment")).cloned();
